@@ -16,7 +16,7 @@ RULE = ('(a) construction from arbitrary images: lengths 0..0x150 around every h
         'ADD SP; LCDC/DMA/APU/MBC/interrupt/timer register traffic; RST/JR) looped for thousands of machine cycles from '
         'power-on with the LCD on, in ROM of every controller type and in RAM; (e) purely random byte programs; '
         '(f) OAM DMA from every page with the CPU running and the LCD on; (g) wave RAM accesses at every cycle offset after a '
-        'trigger; (h) every undefined opcode (child process, must report EXIT) and every defined opcode (must not).  Every '
+        'trigger; (i) every opcode of both pages as the first instruction after power-on (before the PPU has scanned); (h) every undefined opcode (child process, must report EXIT) and every defined opcode (must not).  Every '
         'constructing operation is bracketed by marks: a PANIC line that does not directly follow the mark before a constructor '
         'is a violation even when the model predicts it, as is an EXIT the model (proved to stop only on undefined opcodes) '
         'does not predict, as is any other difference from the model.  A case is non-trivial when it constructs and '
@@ -104,7 +104,7 @@ def bus_histories(rng, n, steps=(30, 120), cpu0=True):
         typ = rng.choice(G.ALL_TYPES)
         romc = rng.choice([0, 0, 1, 2, 3])
         ramc = rng.choice([0, 1, 2, 3, 4, 5])
-        lines = ['sys.new %d %d %d' % (typ, romc, ramc), 'safe.ok', 'sys.hw 1']
+        lines = ['sys.new %d %d %d %d %d' % (typ, romc, ramc, rng.randrange(2), rng.randrange(2)), 'safe.ok', 'sys.hw 1']
         for _ in range(rng.randrange(*steps)):
             r = rng.random()
             if r < 0.45:
@@ -213,6 +213,22 @@ def undefined_cases(rng):
     return cases
 
 
+# ---------------------------------------------------------------- (i) the first instruction after power-on
+def first_instruction_cases(rng, full):
+    """every opcode (both pages) as the instruction at 0x0100, run from power-on with the power-on registers and the
+    LCD on: before the PPU's first cycle OAM.ppuLastAccess is still 0, so the first machine cycle must not reach OAM"""
+    cases = []
+    ops = [(op, None) for op in range(256) if op != 0xcb] + [(0xcb, cb) for cb in (range(256) if full else range(0, 256, 8))]
+    for op, cb in ops:
+        code = [op] + ([cb] if cb is not None else [rng.choice([0x00, 0xfe, 0xff, 0x40, rng.randrange(256)]) for _ in range(S.oplen(op) - 1)])
+        code += [0x00, 0x00, 0x18, 0xfe]
+        lines = ['safe.prog %d 0 0 0x0 %s 0x100 %s' % (rng.choice([0, 1, 0x13, 0x1b]), S.hexs(S.vectors()), S.hexs(code)),
+                 'safe.ok', 'sys.cyc 1', 'safe.oamst', 'sys.cyc 8', 'sys.get', 'safe.oamst']
+        cid = 'first%02x' % op if cb is None else 'firstcb%02x' % cb
+        cases.append((cid, (['mayexit'] if op in S.UNDEFINED else []) + lines))
+    return cases
+
+
 def generate(rng, tier):
     t = tier == 'thorough'
     cases = []
@@ -236,6 +252,7 @@ def generate(rng, tier):
     add('dma_pages', dma_cases(rng, range(256) if t else list(range(0, 256, 5)) + [0xfe, 0xff, 0xdf, 0xe0, 0xf1, 0xf2]))
     add('wave_ram', wave_cases(rng, 600 if t else 60))
     add('opcodes', undefined_cases(rng))
+    add('first_instruction', first_instruction_cases(rng, t))
     cases = [(cid, bracket(ls)) for cid, ls in cases]
     cyc = 0
     for _, ls in cases:
